@@ -29,6 +29,7 @@ type Obligation struct {
 }
 
 type FuncCtx struct {
+	globalAxioms []*Term // assumed axioms from spec files, included only where their symbols occur
 	u        *Universe
 	d        *Decls
 	fn       *ssa.Function
@@ -335,6 +336,10 @@ func (u *Universe) verifyFunction(fn *ssa.Function, c *Contract) (fc *FuncCtx) {
 	}()
 	ex := &Exec{fc: fc, u: u}
 	st := &State{heap: baseHeap(), allocBase: fc.d.Const("alloc0", SInt)}
+	for _, a := range u.axioms {
+		aenv := &Env{fc: fc, heap: st.heap, oldHeap: st.heap, alloc: st.allocBase, oldAlloc: st.allocBase, vars: map[string]Val{}}
+		fc.globalAxioms = append(fc.globalAxioms, aenv.evalBool(a.E))
+	}
 	st.assume(Gt(st.allocBase, IntLit(0)))
 	fc.entryHeap = st.heap
 	fc.entryAlloc = st.allocBase
